@@ -1,8 +1,10 @@
 import Sigc.Model
 import Sigc.Lemmas.Basic
+import Sigc.Lemmas.EmitTurns
 /-!
 # C08 — an exception thrown by a slot propagates and leaves the signal consistent
-(first theorems: propagation; consistency after unwinding is part of the invariant proved in Sigc/Lemmas/Emit*.lean)
+(propagation; consistency after unwinding: the invariant and the `Frame` relation of Sigc/Lemmas/Emit*.lean hold for
+both outcomes — the epilogue of `emitImpl` is the same code on both paths)
 -/
 namespace Sigc.C08
 open Sigc.Model
@@ -44,5 +46,136 @@ theorem emit_propagates (f : Nat) (P : Prog) (s s' : St) (g arg : Nat) (st : Str
   constructor <;> (rw [execOp]; simp [hg, hd, hs, hx])
 
 example : execOp 1 { bodies := [], top := [] } {} .throw_ = some ({}, .error ()) := throw_raises 0 _ _
+
+
+/-! ## consistency after an exception -/
+
+open Sigc.Emit in
+/-- **C08.consistent** — one lemma for both constructors of `Outcome`: an emission that ends normally
+    *or by an exception* leaves a state satisfying the invariant (no error; `exec_count_ = #holders =
+    #end markers` on every impl; `deferred_` exactly when a sweep is pending; every handle's impl exists)
+    and is a `Frame` step: `exec_count_` of every impl is restored, an outer emission in progress keeps its
+    cell range, slot variables in a call survive -/
+theorem consistent (f : Nat) (P : Prog) (s : St) (hs : Inv s) (g : Nat) (h : Handle) (arg : Nat) (strat : Strat)
+    (hg : aget s.G g = some h) (s' : St) (o : Outcome) (v : Nat)
+    (he : emitImpl f P s h.fl h.impl arg strat = some (s', o, v)) :
+    Inv s' ∧ Frame s s' ∧ s'.err = none ∧ ∀ i, execOf s' i = execOf s i := by
+  have := (all_ok f).emit P s h.fl h.impl arg strat s' o v hs
+    (fun i hi => hs.himpl (g, h) (aget_some_mem hg) i hi) he
+  exact ⟨this.inv, this.frame, this.inv.noerr, this.frame.exec⟩
+
+open Sigc.Emit in
+/-- the same for a whole operation line and a functor body, whatever their outcome -/
+theorem consistent_line (f : Nat) (P : Prog) (s : St) (hs : Inv s) (l : Line) (s' : St) (o : Outcome)
+    (he : execLine f P s l = some (s', o)) : Inv s' ∧ Frame s s' :=
+  let g := (all_ok f).line P s l s' o hs he
+  ⟨g.inv, g.frame⟩
+
+open Sigc.Emit in
+theorem consistent_body (f : Nat) (P : Prog) (s : St) (hs : Inv s) (ls : List Line) (s' : St) (o : Outcome)
+    (he : runBody f P s ls = some (s', o)) : Inv s' ∧ Frame s s' :=
+  let g := (all_ok f).body P s ls s' o hs he
+  ⟨g.inv, g.frame⟩
+
+open Sigc.Emit in
+/-- after a top-level operation that ended with an escaping exception (the driver catches it) every
+    signal is quiescent and clean exactly as after a normal end: `exec_count_ = 0`, `deferred_ = false`,
+    no holder, no end marker, every remaining cell still linked — in particular the slots disconnected
+    during the aborted emission have been removed by the sweep -/
+theorem consistent_quiescent (fuel : Nat) (P : Prog) (ls : List Line) (l : Line) (s s' : St)
+    (h : runTop fuel P {} ls = some s) (hx : execLine fuel P s l = some (s', .exc))
+    (i : Nat) (im : Impl) (hi : aget s'.impls i = some im) :
+    im.exec = 0 ∧ im.deferred = false ∧ im.holders = 0 ∧
+    ∀ c ∈ im.cells, c.slot.rep.isSome = true ∧ c.linked = true := by
+  have g0 := runTop_good fuel P {} ls s Sigc.Emit.inv_init h
+  have g1 := (all_ok fuel).line P s l s' .exc g0.inv hx
+  have hxe : im.exec = 0 := by
+    have := (g0.frame.trans g1.frame).exec i
+    rw [execOf_pos hi] at this
+    simpa [execOf, aget] using this
+  have hok := g1.inv.ok i im hi
+  have hd := hok.q1 hxe
+  refine ⟨hxe, hd, by have := hok.eh; omega, ?_⟩
+  intro c hc
+  have hn := hok.no_markers hxe c hc
+  refine ⟨?_, hok.d hd c hc hn⟩
+  cases hr : c.slot.rep <;> simp_all
+
+/-! ## propagation, continued -/
+
+open Sigc.Emit in
+/-- **C08.propagates** (emission level) — when an emission of a non-accumulating signal ends by an
+    exception, the cells that were offered a turn are a non-empty prefix of the snapshot: the thrower
+    is the last one, no later cell is invoked; outcome and value are those of the loop -/
+theorem propagates (f : Nat) (P : Prog) (s : St) (fl : Flavour) (i arg : Nat) (strat : Strat) (im : Impl)
+    (hs : Inv s) (hi : aget s.impls i = some im) (hacc : fl.isAcc = false)
+    (s' : St) (v : Nat) (h : emitImpl (f+1) P s fl (some i) arg strat = some (s', .exc, v)) :
+    ∃ s2 vis, emitLoopT f P (emitStart s i im) i (emitFirst s im) s.next arg 0 = some ((s2, .exc, v), vis) ∧
+      vis ≠ [] ∧ vis <+: im.cells.map (·.id) := by
+  rcases emitImpl_loop f P s fl i arg strat im hi hacc s' .exc v h with ⟨_, _, ho, _⟩ | ⟨s2, hl⟩
+  · cases ho
+  · rw [← emitLoopT_erase] at hl
+    cases hT : emitLoopT f P (emitStart s i im) i (emitFirst s im) s.next arg 0 with
+    | none => rw [hT] at hl; simp at hl
+    | some p =>
+      rw [hT] at hl
+      obtain ⟨res, vis⟩ := p
+      simp at hl; subst hl
+      have := (emitLoopT_snapshot f P s i arg im hs hi (s2, .exc, v) vis hT).2 rfl
+      exact ⟨s2, vis, rfl, this.1, this.2⟩
+
+/-- `slot_iterator_buf::operator*` lets the exception of the invoked functor escape (and does not mark
+    the position as invoked) -/
+theorem deref_propagates (f : Nat) (P : Prog) (s s' : St) (i arg v : Nat) (it : IterBuf) (im : Impl) (c : Cell) (fn : Fun)
+    (hi : aget s.impls i = some im) (hc : im.cells.find? (·.id = it.pos) = some c)
+    (hb : c.slot.blocked = false) (hinv : it.invoked = false)
+    (hrep : c.slot.rep = some { call := true, fn := some fn })
+    (hx : invokeFun f P s fn arg = some (s', .exc, v)) :
+    deref (f+1) P s i it arg = some (s', .exc, it) := by
+  rw [deref]
+  simp only [hi, hc, hrep, hb, hinv]
+  simp [hx]
+
+/-- the accumulating emitters stop at the first dereference that throws: no later position is visited -/
+theorem accLoop_stops_at_exc (f : Nat) (P : Prog) (s s' : St) (i m arg mode k r : Nat) (it it' : IterBuf)
+    (hne : it.pos ≠ m) (hmode : mode ≠ 3) (hx : deref f P s i it arg = some (s', .exc, it')) :
+    accLoop (f+1) P s i it m arg mode k r = some (s', .exc, r) := by
+  rw [accLoop]
+  simp [hne, hmode, hx]
+
+theorem revLoop_stops_at_exc (f : Nat) (P : Prog) (s s' : St) (i first arg r prv : Nat) (it it' : IterBuf) (im : Impl)
+    (hne : it.pos ≠ first) (hi : aget s.impls i = some im) (hp : predId im.cells it.pos = some prv)
+    (hx : deref f P s i { it with pos := prv, invoked := false } arg = some (s', .exc, it')) :
+    revLoop (f+1) P s i it first arg r = some (s', .exc, r) := by
+  rw [revLoop]
+  simp [hne, hi, hp, hx]
+
+/-- an operation line that lets an exception escape is logged as `=> exc` and propagates `.exc` -/
+theorem execLine_propagates (f : Nat) (P : Prog) (s s1 : St) (l : Line)
+    (hx : execOp f P { s with steps := s.steps + 1 } l.op = some (s1, .error ())) :
+    execLine (f+1) P s l = some (collect (s1.log (.res s1.depth l.text "exc")), .exc) := by
+  rw [execLine]
+  simp [hx]
+
+
+/-! ## a concrete instance
+
+Two slots on a void signal; the first one disconnects the second and then throws.  The exception escapes
+the top-level `emit`; afterwards the list holds exactly the one still-connected slot, `exec_count_ = 0`,
+`deferred_ = false`, and the second slot was not invoked (only one `call` event). -/
+
+def demo : Prog := {
+  bodies := [(1, [⟨"disc c2", .disc 2⟩, ⟨"throw", .throw_⟩])],
+  top := [⟨"newG g0 V", .newG 0 (some .V)⟩, ⟨"connfn c1 g0 fn:1", .connfn 1 0 (.fn 1) false⟩,
+          ⟨"connfn c2 g0 fn:2", .connfn 2 0 (.fn 2) false⟩, ⟨"emit g0 3", .emit 0 3 .sum false⟩] }
+
+example : (runTop 20 demo {} demo.top).map (fun s =>
+      (s.impls.map (fun p => (p.2.cells.length, p.2.exec, p.2.deferred, p.2.holders)), s.err,
+       (s.trace.filter (fun e => match e with | .call _ _ _ => true | _ => false)).length))
+    = some ([(1, 0, false, 0)], none, 1) := by decide +kernel
+
+open Sigc.Emit in
+example (s : St) (h : runTop 20 demo {} demo.top = some s) : Inv s :=
+  (runTop_good 20 demo {} demo.top s Sigc.Emit.inv_init h).inv
 
 end Sigc.C08
